@@ -430,7 +430,7 @@ Definition width_of (k : N) : nat := N.to_nat k.
 (* op, a, b, k -> observation (None = the implementation must report an error) *)
 Definition run_case (op : N) (a b : list N) (k : N) : option (list Z) :=
   match op with
-  | 0 => Some [compare_v (width_of k) a b]                     (* SimdMemOps::compare, exact value *)
+  | 0 => Some [Z.sgn (compare_v (width_of k) a b)]             (* SimdMemOps::compare, sign *)
   | 1 => Some (zl_of_opt_nat (simd_memchr (width_of k) a (nth 0 b 0)))
   | 2 => Some (zl_of_bool (simd_utf8_valid (width_of k) a))
   | 3 => option_map (fun n => [Z.of_nat n]) (utf8_count a)
